@@ -142,6 +142,16 @@ CHECKS = {
              'the compile-phase hang is a listed known finding.',
         note='trusted: the regex engine honours its timeout; oracle 2 reads a clock (wide margin + confirmation runs)',
         design='4/C05'),
+    'C09': dict(
+        engine='E2',
+        technique='exhaustive enumeration of construct shapes x nested fillers x ALL truthy/falsy/raises valuations of the probes; '
+                  'probe log compared with an evaluation-order model',
+        text='Every operand-bearing construct with a probe in every operand slot (and each slot in turn holding a nested and / or / '
+             'if-else / + / call) is evaluated under every assignment of truthy / falsy / raises to its probes; the ordered probe log must '
+             'equal the 40-line order model exactly (order and multiplicity), a raising probe must propagate unchanged, and lazy '
+             'operators must return the deciding operand object itself. Complete for the shapes and probe counts stated.',
+        note='trusted: the order model in c09.py; probes return a Decimal subclass accepting every operator',
+        design='4/C09'),
 }
 
 NOT_YET = {}
